@@ -35,6 +35,7 @@ THEOREMS = [
     "C17_world_covers_shared_state",
     "C17_queue",
     "C17_queue_reachable",
+    "C17_queue_per_path_unreset_refutes",
     "C17_log",
     "C17_log_reachable",
     "C17_latch",
@@ -124,7 +125,7 @@ def related(ops, focus):
 
 def strip_obs(o):
     """what the property compares: outcome class, exception class, bytes written / reported"""
-    return {k: o[k] for k in ("t", "v", "sha", "len", "gate", "now", "cls") if k in o}
+    return {k: o[k] for k in ("t", "v", "sha", "len", "gate", "now", "cls", "n", "nums") if k in o}
 
 
 # --------------------------------------------------------------------------- U-world: model vs implementation
@@ -193,17 +194,70 @@ def gen_files(rng, clean=False):
     return files
 
 
+def with_slot(rng, op):
+    """give a read a path that other reads of the history reuse (slots 0 and 1), or leave it a path of its own"""
+    if rng.random() < 0.5:
+        slot = rng.choice([0, 0, 1])
+        if op[0] == "readrich":
+            op[2] = dict(op[2], slot=slot)
+        elif op[0] in ("read", "readtext"):
+            op = op[:4] + [slot]
+    return op
+
+
+def _card(n, imp=1, vol=1, dangling=False):
+    return ["card", n, imp, vol, dangling]
+
+
+def targeted_histories(extended=False):
+    """dirty-then-reuse: an event on problem 1 that leaves process-wide state behind (read cards queued when
+    parse_input abandons the reader, reader failures, failures in a sub-file, failures after the queue was drained,
+    plain success), then a read of problem 0 from the SAME path string or another one, with the same (repaired)
+    content or a different one, then what problem 0 wrote.  Paths are part of the state space."""
+    sub = [1, [_card(2)]]
+    dirty = [
+        [[0, [["read", 1, "ok"], _card(1), ["bad", "syntax"]]], sub],  # parse_input fails after a target was queued
+        [[0, [["read", 1, "ok"], _card(1), ["bad", "logThenRaise"]]], sub],
+        [[0, [["read", 1, "ok"], _card(1), _card(1)]], sub],  # NumberConflictError from parse_input, target queued
+        [[0, [["read", 8, "ok"], ["read", 9, "ok"]]]],  # the reader itself fails (missing file), one target left
+        [[0, [["read", 1, "ok"], ["read", 2, "ok"], _card(1)]], [1, [["bad", "syntax"]]], [2, [_card(5)]]],  # fails in a sub-file
+        [[0, [["read", 1, "ok"], _card(1, dangling=True)]], sub],  # fails after the queue was drained
+        [[0, [["read", 1, "ok"], _card(1)]], sub],  # succeeds
+    ]
+    reuse = [
+        [[0, [["read", 1, "ok"], _card(1), _card(3)]], sub],  # the repaired content of the first dirty event
+        [[0, [_card(10), _card(11)]]],  # another problem, no read card
+        [[0, [_card(10), ["read", 1, "ok"]]], [1, [_card(12)]]],  # another problem with a read card of its own
+        [[0, [_card(10)]], sub],  # another problem; the old sub-file is still lying next to it
+    ]
+    slots = [(0, 0), (0, 1), (None, None)]
+
+    def rd(pid, files, slot):
+        return ["read", pid, files, 0] + ([slot] if slot is not None else [])
+
+    for d in dirty:
+        for r in reuse:
+            for sd, sr in slots:
+                yield {"kind": "world", "ops": [rd(1, d, sd), rd(0, r, sr), ["write", 0, "cells"]]}
+    if extended:
+        for d1 in dirty:
+            for d2 in dirty:
+                for r in reuse:
+                    yield {"kind": "world", "ops": [rd(1, d1, 0), rd(2, d2, 0), rd(0, r, 0), ["write", 0, "cells"]]}
+                    yield {"kind": "world", "ops": [rd(1, d1, 0), rd(2, d2, 1), rd(0, r, 1), ["write", 0, "cells"], rd(3, r, 0), ["write", 3, "cells"]]}
+
+
 def gen_world_case(rng):
     ops = []
     for p in (0, 1):
         if rng.random() < 0.8:
-            ops.append(["read", p, gen_files(rng, clean=True), 0])
+            ops.append(with_slot(rng, ["read", p, gen_files(rng, clean=True), 0]))
     rng.shuffle(ops)
     for _ in range(rng.randint(1, 12 - len(ops))):
         r = rng.random()
         p = rng.choice([0, 0, 1, 1, 2])
         if r < 0.30 or not ops:
-            ops.append(["read", p, gen_files(rng, clean=rng.random() < 0.35), 0 if rng.random() < 0.97 else 5])
+            ops.append(with_slot(rng, ["read", p, gen_files(rng, clean=rng.random() < 0.35), 0 if rng.random() < 0.97 else 5]))
         elif r < 0.62:
             ops.append([rng.choice(["setImp", "setVol", "setNum", "remove"]), p, rng.randint(0, 3), rng.randint(1, 9)])
             if ops[-1][0] == "remove":
@@ -248,7 +302,9 @@ def gen_world_exhaustive():
             if a is None and b is not None:
                 continue
             mid = [x for x in (a, b) if x is not None]
-            yield {"kind": "world", "ops": [first] + mid + probes}
+            ops = [first] + mid + probes
+            # every read of these histories uses the same path string (slot 0)
+            yield {"kind": "world", "ops": [op + [0] if op[0] == "read" else op for op in ops]}
 
 
 class ClassTable:
@@ -280,7 +336,7 @@ def to_model_case(case, obs):
     (class of self, MRO of the value) and by the declaration's kind from the AST"""
     table = ClassTable()
     mops = []
-    for op, o in zip(case["ops"], obs):
+    for i, (op, o) in enumerate(zip(case["ops"], obs)):
         if op[0] == "setprop":
             info = o.get("info")
             if info is None:
@@ -307,7 +363,8 @@ def to_model_case(case, obs):
         elif op[0] == "read":
             # the rendered problem file ends with a surface block and a data block of one input each (render_files)
             files = [[fid, items + ([["other"], ["other"]] if fid == op[3] else [])] for fid, items in op[2]]
-            mops.append(["read", op[1], files, op[3]])
+            # the path the problem is read from: its slot (reused by other reads of the slot), else one of its own
+            mops.append(["read", op[1], files, op[3], op[4] if len(op) > 4 else 1000 + i])
         else:
             mops.append(op)
     return {"fuel": FUEL, "ops": mops}, table
@@ -480,8 +537,13 @@ def gen_read_op(rng, pid):
     return ["read", pid, gen_files(rng, clean=rng.random() < 0.5), 0]
 
 
+def gen_slotted_read_op(rng, pid):
+    """reads reuse path strings deliberately"""
+    return with_slot(rng, gen_read_op(rng, pid))
+
+
 def gen_interleaving(rng):
-    ops = [gen_read_op(rng, 0), gen_read_op(rng, 1)]
+    ops = [gen_slotted_read_op(rng, 0), gen_slotted_read_op(rng, 1)]
     if rng.random() < 0.5:
         ops.reverse()
     pids = [0, 1]
@@ -489,7 +551,7 @@ def gen_interleaving(rng):
         r = rng.random()
         p = rng.choice(pids)
         if r < 0.12:
-            ops.append(gen_read_op(rng, rng.choice([0, 1])))
+            ops.append(gen_slotted_read_op(rng, rng.choice([0, 1])))
         elif r < 0.60:
             ops.append(["edit", p, rng.choice(EDITS), rng.randint(0, 7), rng.randint(0, 7), rng.randint(1, 9)])
         elif r < 0.72:
@@ -577,10 +639,12 @@ def classify(ops, full_obs, verdict):
     elif before.get("class_state"):
         cls = "class-attr-latch"
         site = before["class_state"][0] + " @ " + site
-    elif op[0] in READ_OPS and before.get("log"):
-        cls = "log-leak"
+    elif op[0] in READ_OPS and before.get("log") and (not before.get("queue") or verdict["with_others"].get("v") == "ParsingError"):
+        cls = "log-leak"  # a dirty log makes parse() return None: ParsingError
     elif op[0] in READ_OPS and before.get("queue"):
         cls = "queue-leak"
+    elif op[0] in READ_OPS and before.get("log"):
+        cls = "log-leak"
     elif copy_family:
         cls = "deepcopy-aliasing"
     elif op[0] in ("write", "report"):
@@ -657,7 +721,7 @@ def build_call_matrix():
 
 
 def strip_call(o):
-    return {k: o[k] for k in ("t", "v", "gate", "now", "cls", "sha") if k in o}
+    return {k: o[k] for k in ("t", "v", "gate", "now", "cls", "sha", "n", "nums") if k in o}
 
 
 def fresh_outcome(call):
@@ -789,7 +853,11 @@ def report_interleave(chk, case, first_verdict):
         return
     sig0 = classify(case["ops"], ev["full"], v)
     if _seen(sig0) >= 2:  # already minimised twice for this signature: count it, keep the smaller replay
-        chk.violation(sig0, f"{sig0['class']} at {sig0['site']}", {"case": {k: case[k] for k in ("kind", "ops")}, "verdict": v})
+        chk.violation(
+            sig0,
+            f"{sig0['class']} at {sig0['site']}: problem {v['focus']} behaves differently when operations on unrelated problems precede it",
+            {"case": {k: case[k] for k in ("kind", "ops")}, "verdict": v},
+        )
         return
     small = interleave_shrink(case, v) or case
     ev2 = interleave_eval(small)
@@ -941,10 +1009,21 @@ def run(chk):
     wcases = [c for c in corpus if c.get("kind") == "world"]
     nwc = len(wcases)
     exh = list(gen_world_exhaustive())
+    # when an obligation no longer builds (e.g. the shared-state inventory changed) the failing-input search starts
+    # with the dirty-then-reuse histories, in their extended form
+    search_mode = any(not o["ok"] for o in chk.obligations)
+    targeted = list(targeted_histories(extended=search_mode or chk.thorough))
+    chk.extra["failing_input_search"] = {"obligation_broken": search_mode, "targeted_histories": len(targeted)}
+    wcases += targeted
     wcases += exh
     wcases += [gen_world_case(rng) for _ in range(chk.pick(500, 12000))]
     wres = check_world(chk, drv, wcases)
-    chk.units["U-world"] = {"corpus": nwc, "exhaustive_small": len(exh), "random": len(wcases) - nwc - len(exh)}
+    chk.units["U-world"] = {
+        "corpus": nwc,
+        "targeted_dirty_then_reuse": len(targeted),
+        "exhaustive_small": len(exh),
+        "random": len(wcases) - nwc - len(exh) - len(targeted),
+    }
     chk.exhaustive = {"U-world": "all histories of length <= 2 over an 11-operation alphabet touching each piece of shared state, between a first read and five probes"}
     for case, r in zip(wcases, wres):
         nt = len({canon(op[:2]) for op in case["ops"]}) >= 2
@@ -964,7 +1043,7 @@ def run(chk):
     icases = [c for c in corpus if c.get("kind") == "interleave"]
     nic = len(icases)
     # the modelled cases are histories on several problems too: judge them with the same oracle
-    icases += [dict(c, kind="interleave") for c in wcases[nwc : nwc + chk.pick(120, 1500)]]
+    icases += [dict(c, kind="interleave") for c in wcases[nwc : nwc + len(targeted) + chk.pick(120, 1500)]]
     nfrom_world = len(icases) - nic
     enum_i = list(enumerated_interleavings(chk.thorough))
     icases += enum_i
